@@ -13,9 +13,9 @@ theorem primOk_mapOut_bin {α β : Type} (p : Bytes → Out (α × Bytes)) (g : 
     (hlen : ∀ bs a r, p bs = .ok (a, r) → r.length + 1 ≤ bs.length) :
     PrimOk (σ := Bytes) List.length 1 (fun bs => mapOut g (p bs)) := by
   intro bs
-  refine ⟨fun m => by rw [Ne, mapOut_panic]; exact hnp bs m, by rw [Ne, mapOut_fuel]; exact hnf bs, ?_⟩
+  refine ⟨fun m => by rw [Ne, mapOut_eq_panic]; exact hnp bs m, by rw [Ne, mapOut_eq_fuel]; exact hnf bs, ?_⟩
   intro a s' h
-  rw [mapOut_ok] at h
+  rw [mapOut_eq_ok] at h
   obtain ⟨⟨a0, r⟩, hp, hga⟩ := h
   have := hlen bs a0 r hp
   have h2 := hg (a0, r)
@@ -50,11 +50,11 @@ theorem binRd_safe (e : Endian) (dpt : Nat) : (binRd e (some dpt)).Safe List.len
   mb := primOk_bin _ (Binary.readMapBegin_ne_panic e) (Binary.readMapBegin_ne_fuel e) (fun bs a r h => by have := Binary.readMapBegin_len h; omega)
   skip t bs := by
     refine ⟨fun m => ?_, ?_, fun s' h => ?_⟩
-    · simp only [binRd, Ne, mapOut_panic]
+    · simp only [binRd, Ne, mapOut_eq_panic]
       exact (Skip.skipVal_nopanic e _).1 (dpt : Int) t bs m (by omega)
-    · simp only [binRd, Ne, mapOut_fuel]
+    · simp only [binRd, Ne, mapOut_eq_fuel]
       exact (Skip.skipVal_nofuel e _).1 (dpt : Int) t bs (by omega)
-    · simp only [binRd, mapOut_ok] at h
+    · simp only [binRd, mapOut_eq_ok] at h
       obtain ⟨⟨k, r⟩, hk, hr⟩ := h
       simp at hr; subst hr
       have := (Skip.skipVal_count e (3 * bs.length + 3)).1 (dpt : Int) t bs k r hk
@@ -68,9 +68,9 @@ theorem primOk_cmp {α : Type} (p : Bytes → Out (α × Bytes))
     (hlen : ∀ bs a r, p bs = .ok (a, r) → r.length + 1 ≤ bs.length) :
     PrimOk cmpM 1 (fun s : Compact.CR × Bytes => mapOut (fun x => (x.1, s.1, x.2)) (p s.2)) := by
   intro s
-  refine ⟨fun m => by rw [Ne, mapOut_panic]; exact hnp _ m, by rw [Ne, mapOut_fuel]; exact hnf _, ?_⟩
+  refine ⟨fun m => by rw [Ne, mapOut_eq_panic]; exact hnp _ m, by rw [Ne, mapOut_eq_fuel]; exact hnf _, ?_⟩
   intro a s' h
-  rw [mapOut_ok] at h
+  rw [mapOut_eq_ok] at h
   obtain ⟨⟨a0, r⟩, hp, hga⟩ := h
   have := hlen _ a0 r hp
   simp at hga
@@ -83,18 +83,18 @@ theorem cmpRd_safe : cmpRd.Safe cmpM 1 where
   sb s := by simp [cmpRd, cmpM]
   se s := by
     refine ⟨fun m => ?_, ?_, fun s' h => ?_⟩
-    · simp only [cmpRd, Ne, mapOut_panic]; exact Compact.readStructEnd_ne_panic _ _
-    · simp only [cmpRd, Ne, mapOut_fuel]; exact Compact.readStructEnd_ne_fuel _
-    · simp only [cmpRd, mapOut_ok] at h
+    · simp only [cmpRd, Ne, mapOut_eq_panic]; exact Compact.readStructEnd_ne_panic _ _
+    · simp only [cmpRd, Ne, mapOut_eq_fuel]; exact Compact.readStructEnd_ne_fuel _
+    · simp only [cmpRd, mapOut_eq_ok] at h
       obtain ⟨c, hc, hs'⟩ := h
       subst hs'
       have := Compact.readStructEnd_mu hc
       simp only [cmpM]; omega
   fb s := by
     refine ⟨fun m => ?_, ?_, fun a s' h => ?_⟩
-    · simp only [cmpRd, Ne, mapOut_panic]; exact Compact.readFieldBegin_ne_panic _ _ _
-    · simp only [cmpRd, Ne, mapOut_fuel]; exact Compact.readFieldBegin_ne_fuel _ _
-    · simp only [cmpRd, mapOut_ok] at h
+    · simp only [cmpRd, Ne, mapOut_eq_panic]; exact Compact.readFieldBegin_ne_panic _ _ _
+    · simp only [cmpRd, Ne, mapOut_eq_fuel]; exact Compact.readFieldBegin_ne_fuel _ _
+    · simp only [cmpRd, mapOut_eq_ok] at h
       obtain ⟨⟨x, c, r⟩, hc, hs'⟩ := h
       simp at hs'
       obtain ⟨_, hs'⟩ := hs'
@@ -104,9 +104,9 @@ theorem cmpRd_safe : cmpRd.Safe cmpM 1 where
       simp only [cmpM]; omega
   bool s := by
     refine ⟨fun m => ?_, ?_, fun a s' h => ?_⟩
-    · simp only [cmpRd, Ne, mapOut_panic]; exact Compact.readBool_ne_panic _ _ _
-    · simp only [cmpRd, Ne, mapOut_fuel]; exact Compact.readBool_ne_fuel _ _
-    · simp only [cmpRd, mapOut_ok] at h
+    · simp only [cmpRd, Ne, mapOut_eq_panic]; exact Compact.readBool_ne_panic _ _ _
+    · simp only [cmpRd, Ne, mapOut_eq_fuel]; exact Compact.readBool_ne_fuel _ _
+    · simp only [cmpRd, mapOut_eq_ok] at h
       obtain ⟨⟨x, c, r⟩, hc, hs'⟩ := h
       simp at hs'
       obtain ⟨_, hs'⟩ := hs'
@@ -128,11 +128,11 @@ theorem cmpRd_safe : cmpRd.Safe cmpM 1 where
       (by have := Compact.mu_le s.1; omega)
     have hlen := (Skip.rdSkip_len _ _ Skip.compactPrims_good (3 * s.2.length + 3)).1 (skipDepth : Int) t s.1 s.2
     refine ⟨fun m => ?_, ?_, fun s' h => ?_⟩
-    · simp only [cmpRd, Ne, mapOut_panic, Skip.cskip, Skip.cskipVal]
+    · simp only [cmpRd, Ne, mapOut_eq_panic, Skip.cskip, Skip.cskipVal]
       intro h; split at h <;> simp_all [skipDepth]
-    · simp only [cmpRd, Ne, mapOut_fuel, Skip.cskip, Skip.cskipVal]
+    · simp only [cmpRd, Ne, mapOut_eq_fuel, Skip.cskip, Skip.cskipVal]
       intro h; split at h <;> simp_all
-    · simp only [cmpRd, mapOut_ok, Skip.cskip, Skip.cskipVal] at h
+    · simp only [cmpRd, mapOut_eq_ok, Skip.cskip, Skip.cskipVal] at h
       obtain ⟨⟨k, c, r⟩, hc, hs'⟩ := h
       subst hs'
       split at hc <;> simp at hc
